@@ -78,6 +78,7 @@ type Scenario struct {
 	Split     bool             `json:"split,omitempty"`       // tcp session: the client writes its queries in one task and reads the replies in another (a pipelining caller), instead of calling ExchangeWithConn
 	Stall     int              `json:"stall,omitempty"`       // tcp session: chance (percent) that a thread loses the processor for up to 50 ms of simulated time right after a write has returned - the peer may answer meanwhile
 	Async     bool             `json:"async_reply,omitempty"` // session: the handler returns at once and answers from another task a little later, through the ResponseWriter it was given
+	Stray     bool             `json:"stray,omitempty"`       // udp: before the answer to each exchange a signed datagram with another ID reaches the client (the late answer to an earlier query, a forgery): it is skipped - and must leave nothing behind
 	Burst     bool             `json:"burst,omitempty"`       // udp: every client sends all its requests before reading any reply
 	Xfer      json.RawMessage  `json:"transfer,omitempty"`    // kind transfer: a zone-transfer session with TSIG (scenario of the C15 harness)
 }
@@ -128,6 +129,7 @@ func Gen(seed uint64, tier string) any {
 		// (datagram sessions only: there every request has a response writer of its own; on a stream the
 		// writer belongs to the connection and the server moves on to the next request when the handler returns)
 		sc.Async = sc.Transport == "udp" && core.Chance(r, 35)
+		sc.Stray = sc.Transport == "udp" && core.Chance(r, 35)
 		sc.Clients = 1
 		if sc.Transport == "udp" {
 			sc.Clients = 1 + r.IntN(4)
@@ -1704,6 +1706,20 @@ func (c *udpClient) RunEvent(time.Time) {
 			co = &dns.Conn{Conn: d}
 		}
 		cl := &dns.Client{Timeout: 30 * time.Second, UDPSize: 4096, TsigSecret: map[string]string{keyName: secretGood}}
+		if sc.Stray && e.Signed {
+			// somebody else's signed answer, on its way to this socket before the one that is asked for now
+			f := new(dns.Msg)
+			f.SetQuestion("stray.session.test.", dns.TypeTXT)
+			f.Id, f.Response = m.Id^0x4000, true
+			f.Extra = append(f.Extra, &dns.TSIG{Hdr: dns.RR_Header{Name: keyName, Rrtype: dns.TypeTSIG, Class: dns.ClassANY}, Algorithm: sc.Alg, TimeSigned: uint64(time.Now().Unix()), Fudge: 300,
+				MACSize: 32, MAC: strings.Repeat("5a", 32), OrigId: f.Id})
+			if b, perr := f.Pack(); perr == nil {
+				k.Lock()
+				s.n.InjectToClient(d, b, 0)
+				k.BumpLocked("fault.stray_signed_datagram_before_answer")
+				k.Unlock()
+			}
+		}
 		r, _, err := cl.ExchangeWithConn(m, co)
 		cs := cliSeen{conn: c.ci, id: m.Id, err: common.ErrStr(err), got: r != nil, t: time.Now()}
 		k.Lock()
